@@ -1,4 +1,5 @@
 import GuppyVerif.Model.DFWiring
+import GuppyVerif.Model.DFVarIdx
 import GuppyVerif.Util.Sexp
 /-! Line-protocol driver for C01 (wiring model).  One request per line:
 
@@ -59,8 +60,30 @@ def runOps (t : Ty) (ret : Bool) : List Sexp → Locals → Nat → List String 
     | .error (.keyError p) => some ((s!"(g err keyError {showPlace p})" :: acc).reverse, none)
   | _, _, _, _ => none
 
+def showLowered : DFVarIdx.Lowered → String
+  | .var j => s!"v{j}"
+  | .arg => "m"
+  | .error => "e"
+
+/-- `(vi b0 b1 ...)` (bi = 1: parameter i monomorphised away) | `(vi - k)` (no monomorphisation
+    context, k parameters): how each parameter's variable is lowered, then the kept parameter list -/
+def handleVarIdx (args : List Sexp) : String :=
+  match args with
+  | [.atom "-", .atom k] =>
+    match k.toNat? with
+    | some k => " ".intercalate ((List.range k).map fun i => showLowered (DFVarIdx.varToHugr none i))
+    | none => "bad-op"
+  | _ =>
+    match args.mapM Sexp.asNat? with
+    | some bits =>
+      let mono := bits.map (· != 0)
+      let outs := (List.range mono.length).map fun i => showLowered (DFVarIdx.varToHugr (some mono) i)
+      " ".intercalate outs ++ " | " ++ " ".intercalate ((DFVarIdx.remaining mono).map toString)
+    | none => "bad-op"
+
 def handle (line : String) : String :=
   match Sexp.parse line with
+  | some (.list (.atom "vi" :: args)) => handleVarIdx args
   | some (.list [.atom n0, ty, .atom ret, .list ops]) =>
     match n0.toNat?, tyOf ty with
     | some n, some t =>
